@@ -62,6 +62,7 @@ fn main() {
         std::process::exit(2);
     };
     if args[2] == "--replay" {
+        limit_memory(8);
         let code = replay_file(prop, root, &args[3]);
         std::process::exit(code);
     }
@@ -74,6 +75,7 @@ fn main() {
         }
     };
     nvh::crash::install(&root.join("replays").join("found"));
+    limit_memory(40);
     let seed = std::env::var("VERIF_SEED").ok().and_then(|s| s.parse::<i64>().ok()).unwrap_or(0) as u64;
     let only = args.iter().position(|a| a == "--stream").and_then(|i| args.get(i + 1)).map(|s| s.as_str());
     let code = run_property(prop, tier, seed, root, only);
